@@ -151,6 +151,8 @@ def handle : Handler := fun op a =>
       | "vec" => pure (trace (vecImpl Int) vecIntern ops)
       | "svec" => pure (trace (svecImpl 4 (0 : Int)) (svecIntern 4) ops)
       | "arr" => pure (trace (arrImpl 3 (0 : Int)) (arrIntern 3) ops)
+      | "tuple" => pure (trace (arrImpl 3 (0 : Int)) (arrIntern 3) ops)
+      | "tuplev2" => pure (trace (arrImpl 3 (0 : Int)) (arrIntern 3) ops)
       | "small" => pure (trace (smallImpl 4 (0 : Int)) (smallIntern 4) ops)
       | _ => none
   | "ehist" => orBad do
